@@ -14,7 +14,7 @@ open NV.Gen.C04
     100 instruction loop completes -/
 theorem eval_unbounded_at_zero_budget :
     (evaluate { maxCost := 0, maxDepth := 20, stackSize := 100, handlerCatches := false } 1000 (.work 100)).1 = .ok ∧
-    (evaluate { maxCost := 0, maxDepth := 20, stackSize := 100, handlerCatches := false } 1000 (.work 100)).2.ticks = 102 := by
+    (evaluate { maxCost := 0, maxDepth := 20, stackSize := 100, handlerCatches := false } 1000 (.work 100)).2.ticks = 103 := by
   decide
 
 /-- the bound of eval_bounded is attained: two nested safe applies that each stop an eval-cost error add two ticks, and
